@@ -291,4 +291,80 @@ def validSpecB (sepC : Char) (lines : List Str) : Bool :=
   decide (2 ≤ lines.length) && !((lines.tail.head?.map isDD).getD false) &&
   lines.tail.all (fun l => l.count sepC == (lines.headD []).count sepC)
 
+/-! ## Entry points that work on files, and the header helper (extension) -/
+
+/-- `parse_pin_header_columns(header, sep_column)` as a function of its own
+(`header.strip().split(sep)`, the assertion, `len(columns)`,
+`columns.index("Proteins")`): `(n_col, idx_protein_col)`.
+`pinAfterHeader` above inlines exactly this (`pinAfterHeader_eq_parseHeaderCols`).
+src: mokapot/parsers/pin_to_tsv.py:22-55 -/
+def parseHeaderCols (sepC : Char) (header : Str) : Except PinErr (Nat × Nat) :=
+  let columns := splitOn sepC (strip header)
+  if columns.contains proteinsName then .ok (columns.length, columns.idxOf proteinsName)
+  else .error .assertion
+
+/-- what `open(path, 'r')` (text mode, universal newlines) hands to the
+program for the stored characters: `"\r\n"` and a lone `"\r"` are read as
+`"\n"`.  The flag says that the previous character was a `'\r'`. -/
+def univNlAux : Bool → Str → Str
+  | _, [] => []
+  | prevCR, c :: cs =>
+    if c = '\r' then '\n' :: univNlAux true cs
+    else if c = '\n' then (if prevCR then univNlAux false cs else '\n' :: univNlAux false cs)
+    else c :: univNlAux false cs
+
+def univNl (raw : Str) : Str := univNlAux false raw
+
+/-- the command line tool `python -m mokapot.parsers.pin_to_tsv path_in path_out
+[--sep_column c] [--sep_protein p]`: the separators default to tab and `":"`,
+the input file is read in text mode, the output file is opened with `'w'`
+(whatever it held before, `_oldOut`, is discarded) and receives the conversion.
+The result is the content of `path_out` afterwards.
+src: mokapot/parsers/pin_to_tsv.py:223-239 -/
+def toolMain (sepC : Option Char) (sepP : Option Str) (rawIn _oldOut : Str) : Except PinErr Str :=
+  pinToTsv (sepC.getD '\t') (sepP.getD [':']) (univNl rawIn)
+
+/-- the CLI verify step on one stored file: both `open(path_pin, 'r')` read in
+text mode; a valid file keeps its stored characters, an invalid one is
+replaced by the conversion of what was read.
+src: mokapot/mokapot.py:65-73 -/
+def verifyStepFile (raw : Str) : Except PinErr Str :=
+  (isValid '\t' (univNl raw)).bind (fun v => if v then .ok raw else pinToTsv '\t' [':'] (univNl raw))
+
+/-- `for path_pin in config.psm_files:` — the files (distinct paths) are
+treated one after the other, in the order given; the first exception aborts.
+src: mokapot/mokapot.py:64-73 -/
+def verifyFilesLoop : List Str → Except PinErr (List Str)
+  | [] => .ok []
+  | f :: fs => (verifyStepFile f).bind (fun o => (verifyFilesLoop fs).map (fun os => o :: os))
+
+/-- the whole verify step of the CLI: `if config.verify_pin:` (option
+`--verify_pin`, default on) guards the loop; the result is the content of the
+PSM files afterwards.  src: mokapot/mokapot.py:63-73 -/
+def verifyFiles (verifyPin : Bool) (files : List Str) : Except PinErr (List Str) :=
+  if verifyPin then verifyFilesLoop files else .ok files
+
+/-! ### specification side of the extension -/
+
+/-- rendering with a given line terminator (`"\n"`, `"\r\n"` or `"\r"`) -/
+def renderLinesT (t : Str) : List Str → Bool → Str
+  | [], _ => []
+  | [l], trailing => l ++ (if trailing then t else [])
+  | l :: l' :: r, trailing => l ++ t ++ renderLinesT t (l' :: r) trailing
+
+/-- the stored characters of a PIN document written with line terminator `t` -/
+def renderPinT (sepC : Char) (t : Str) (d : PinDoc) : Str := renderLinesT t (d.lines sepC) d.trailingNl
+
+/-- the three line terminators text mode recognises -/
+def lineTerminators : List Str := [['\n'], ['\r', '\n'], ['\r']]
+
+def noCRs (s : Str) : Bool := !s.contains '\r'
+
+def PinRow.noCR (r : PinRow) : Bool := noCRs r.padL && noCRs r.padR && r.fields.all noCRs
+
+/-- no carriage return inside the document (it may still be *stored* with
+`"\r\n"` or `"\r"` line ends) -/
+def PinDoc.noCR (d : PinDoc) : Bool :=
+  noCRs d.hpadL && noCRs d.hpadR && d.cols.all noCRs && (d.dd.map noCRs).getD true && d.rows.all PinRow.noCR
+
 end Mk
